@@ -359,6 +359,11 @@ func c07Base(r *mrand.Rand) *world.World {
 }
 
 func c07(x *mon.Ctx) {
+	if !x.Quick() {
+		defer func() {
+			x.Fuzz("FuzzSignedCollateral", 200000) // mutated member texts, re-signed by the genuine signer: library accepts => reference accepts
+		}()
+	}
 	x.Level = "exploration"
 	x.Rule = "QE report fields edited and the report re-signed with the PCK key (signature chain stays valid), against freshly signed QE identities: every single bit of MISCSELECT (32) and ATTRIBUTES (128) flipped in the report with the identity's mask covering / not covering that bit, identity value bits outside the mask, every bit of MRSIGNER, MRSIGNER of other lengths, ISVPRODID at 0/1/65535/65536/2^32/-1/string/fraction, mask and value lengths 0/n-1/n+1/2n, hex case / odd-length / non-hex strings, level lists of 1 and 2 levels exhaustively over {isvsvn below, equal, above} x 7 statuses (21 + 441) and random 3-4 level lists, ISVSVN byte-order traps. Oracle: must-accept / must-reject where the statement decides, reference evaluator (accept => MRSIGNER, ISVPRODID equal, masked MISCSELECT / ATTRIBUTES equal, first level with isvsvn <= ISVSVN is UpToDate) everywhere; 'no level matches => reporting API errors'. distinct = distinct (class, parameter)."
 	base := c07Base(x.Rand("base"))
